@@ -42,6 +42,7 @@ type FuncResult struct {
 	Events      [][]Event // per finished path
 	PathEnds    []*PathEnd
 	Engine      *Engine
+	ExclEngine  *Engine
 	Ms          int64
 }
 
@@ -78,6 +79,33 @@ func VerifyFunc(p *Program, cs *Contracts, fn *ssa.Function, cfg *CheckConfig, w
 		return res
 	}
 	res.Obls = e.Discharge(workdir, timeout)
+	if e.Contract != nil && len(e.Contract.EnsuresExcl) > 0 {
+		// second pass: same code, receiver exclusively owned; only the exclusive postconditions count
+		e2 := NewEngine(p, cs, fn, cfg)
+		e2.Exclusive = true
+		func() {
+			defer func() {
+				if r := recover(); r != nil {
+					if u, ok := r.(unsupported); ok {
+						res.Unsupported = "exclusive pass: " + u.msg
+						return
+					}
+					panic(r)
+				}
+			}()
+			e2.generate()
+		}()
+		for _, o := range e2.Discharge(workdir, timeout) {
+			if strings.Contains(o.Name, "/post-exclusive#") {
+				res.Obls = append(res.Obls, o)
+			} else if strings.Contains(o.Name, "-inv-") {
+				// loop invariants of the sequential pass (includes the exclusive-only ones)
+				o.Name = strings.Replace(o.Name, "/loop", "/seq-loop", 1)
+				res.Obls = append(res.Obls, o)
+			}
+		}
+		res.ExclEngine = e2
+	}
 	// cover: at least one return path (or loop-back) must be feasible, otherwise the contract is vacuous
 	res.CoverOK = e.cover(workdir, timeout)
 	res.Ms = time.Since(t0).Milliseconds()
@@ -175,6 +203,13 @@ func (e *Engine) checkPost(o outcome) {
 	for i := 0; i < res.Len(); i++ {
 		ctx.RTypes = append(ctx.RTypes, res.At(i).Type())
 		ctx.RNames = append(ctx.RNames, res.At(i).Name())
+	}
+	if e.Exclusive {
+		for k, en := range e.Contract.EnsuresExcl {
+			t, _ := e.tryEvalBool(s, ctx, en.Expr)
+			e.assert(s, fmt.Sprintf("%s/post-exclusive#%d", e.FnKey, k), "post", fn.Pos(), en.Text+"  [receiver exclusively owned]", t)
+		}
+		return
 	}
 	for k, en := range e.Contract.Ensures {
 		t, _ := e.tryEvalBool(s, ctx, en.Expr)
